@@ -16,11 +16,58 @@ static int nvFailVfork = 0;
 // ... and the k-th pipe() call from now on can be made to fail (0 = none)
 static int nvFailPipe = 0;
 #define pipe(fds) (nvFailPipe && --nvFailPipe == 0 ? (errno = EMFILE, -1) : pipe(fds))
+// ... select() can be scripted per call: 'T' = time-out as the kernel reports it (examined bits cleared, the time-out left at
+// zero, result 0), 'I' = EINTR, anything else / end of the script = the real call; a read that calls select 20000 times spins
+static const char* nvSelScript = 0;
+static int nvSelCalls = 0;
+static int nvSelect(int nfds, fd_set* r, fd_set* w, fd_set* e, timeval* tv)
+{
+  if(++nvSelCalls > 20000)
+  {
+    static const char msg[] = "\nERROR: Process::read called select 20000 times without returning (spinning on an empty set)\n";
+    ssize_t k = write(2, msg, sizeof(msg) - 1);
+    (void)k;
+    kill(0, SIGKILL);
+    _exit(89);
+  }
+  char c = nvSelScript && *nvSelScript ? *nvSelScript++ : 'R';
+  if(c == 'T')
+  {
+    for(int fd = 0; fd < nfds; ++fd)
+      FD_CLR(fd, r);
+    tv->tv_sec = 0;
+    tv->tv_usec = 0;
+    return 0;
+  }
+  if(c == 'I')
+  {
+    errno = EINTR;
+    return -1;
+  }
+  return select(nfds, r, w, e, tv);
+}
+#define select(n, r, w, e, t) nvSelect(n, r, w, e, t)
+// ... and the next nvFailWaitpid calls of waitpid() fail with EINTR (a signal handler without SA_RESTART ran)
+static int nvFailWaitpid = 0;
+#include <sys/wait.h>
+static pid_t nvWaitpid(pid_t pid, int* status, int options)
+{
+  if(nvFailWaitpid > 0)
+  {
+    --nvFailWaitpid;
+    errno = EINTR;
+    return -1;
+  }
+  return waitpid(pid, status, options);
+}
+#define waitpid(p, s, o) nvWaitpid(p, s, o)
 #include "../src/Process.cpp"
 #undef vfork
 #undef pipe
+#undef select
+#undef waitpid
+#include <sys/ioctl.h>
 #include <pthread.h>
-#include <sys/wait.h>
 
 static const char* childPath = "";
 static size_t childPathLen = 0;
@@ -1568,6 +1615,213 @@ static void opWait(const HxLine& l)
   wEnd();
 }
 
+// sel <nout> <nerr> <hold> <swap> <len.streams.script>...: the three-argument read against a child that has written <nout>
+// bytes 'o' to stdout and <nerr> bytes 'e' to stderr and then stays (hold = 1) or has exited (hold = 0: end-of-file behind the
+// data); swap = 1: the stdout descriptor is moved above the stderr descriptor (maxFd); every read token is one call of
+// read(buf, len, streams) during which select() follows the script (T = time-out, I = EINTR, then the real call)
+static int queuedIn(int fd)
+{
+  int n = -1;
+  return ioctl(fd, FIONREAD, &n) == 0 ? n : -1;
+}
+
+static void opSel(const HxLine& l)
+{
+  unsigned long nout = hxNum(l, 1), nerr = hxNum(l, 2);
+  bool hold = hxNum(l, 3) != 0, swap = hxNum(l, 4) != 0;
+  char a2[16], a3[16], a4[4];
+  snprintf(a2, sizeof(a2), "%lu", nout);
+  snprintf(a3, sizeof(a3), "%lu", nerr);
+  snprintf(a4, sizeof(a4), "%d", hold ? 1 : 0);
+  char* argv[] = {(char*)childPath, (char*)"@two", a2, a3, a4};
+  Process p;
+  bool ok = nout <= 60000 && nerr <= 60000 && p.open(String(childPath, childPathLen), 5, argv, 3);
+  printf("sel ok=%d", ok ? 1 : 0);
+  if(ok)
+  {
+    for(int i = 0; i < 20000 && (queuedIn(p.fdStdOutRead) != (int)nout || queuedIn(p.fdStdErrRead) != (int)nerr); ++i)
+      usleep(500);
+    if(!hold)
+      untilZombie(p.pid);
+    if(swap)
+    {
+      int nf = fcntl(p.fdStdOutRead, F_DUPFD, p.fdStdErrRead + 7);
+      ::close(p.fdStdOutRead);
+      p.fdStdOutRead = nf;
+    }
+    for(int t = 5; t < l.ntok; ++t)
+    {
+      char tok[128];
+      snprintf(tok, sizeof(tok), "%s", l.tok[t]);
+      char* d1 = strchr(tok, '.');
+      char* d2 = d1 ? strchr(d1 + 1, '.') : 0;
+      if(!d1 || !d2)
+      {
+        printf(" r=bad");
+        continue;
+      }
+      *d1 = 0;
+      *d2 = 0;
+      size_t len = (size_t)strtoul(tok, 0, 10);
+      uint streams = (uint)strtoul(d1 + 1, 0, 10);
+      char* buf = (char*)malloc(len ? len : 1); // exactly sized
+      nvSelScript = d2 + 1;
+      nvSelCalls = 0;
+      errno = 0;
+      ssize n = p.read(buf, len, streams);
+      int err = errno;
+      nvSelScript = 0;
+      if(n < 0)
+        printf(err == EINVAL ? " r=einval" : " r=-1");
+      else
+        printf(" r=%ld/%u/%c", (long)n, streams, n > 0 ? buf[0] : '-');
+      free(buf);
+    }
+    bool done = hold ? p.kill() : p.join();
+    printf(" | done=%d after=%u", done ? 1 : 0, pipesOf(p) | (p.pid ? 8u : 0u));
+  }
+  hxEndLine();
+}
+
+// joinfail <mask> <k> <code>: waitpid fails k times with EINTR: join() returns false, the object stays joinable (pid and read
+// ends kept, the stdin end is closed by then), the next join() delivers the code and releases everything
+static void opJoinFail(const HxLine& l)
+{
+  uint mask = (uint)hxNum(l, 1) & 7;
+  int k = (int)hxNum(l, 2);
+  char code[16];
+  snprintf(code, sizeof(code), "%u", (unsigned)hxNum(l, 3));
+  char* argv[] = {(char*)childPath, (char*)"@exit", code};
+  Capture cap(true);
+  bool diverted = !(mask & 1);
+  if(diverted && !divertStdout())
+  {
+    printf("FAULT tmpfile");
+    hxEndLine();
+    return;
+  }
+  Process p;
+  bool ok = p.open(String(childPath, childPathLen), 3, argv, mask);
+  char line[512];
+  int pos = snprintf(line, sizeof(line), "jf ok=%d", ok ? 1 : 0); // printed when stdout is ours again
+  if(ok)
+  {
+    nvFailWaitpid = k;
+    for(int i = 0; i <= k && i < 8; ++i)
+    {
+      uint32 exitCode = 9999;
+      bool joined = p.join(exitCode);
+      pos += snprintf(line + pos, sizeof(line) - (size_t)pos, " j=%d/%u%u%u%u", joined ? 1 : 0, p.pid ? 1u : 0u, p.fdStdOutRead ? 1u : 0u,
+        p.fdStdErrRead ? 1u : 0u, p.fdStdInWrite ? 1u : 0u);
+      if(joined)
+        pos += snprintf(line + pos, sizeof(line) - (size_t)pos, "/%u", (unsigned)exitCode);
+    }
+    nvFailWaitpid = 0;
+  }
+  if(diverted)
+    restoreStdout(cap);
+  fputs(line, stdout);
+  hxEndLine();
+}
+
+// startfail <form>: vfork fails inside start(): 0 is returned, the object stays idle, nothing is left behind
+static void opStartFail(const HxLine& l)
+{
+  Process p;
+  char* argv[] = {(char*)childPath, (char*)"@exit", (char*)"0"};
+  errno = 0;
+  nvFailVfork = 1;
+  uint32 pid;
+  if(strcmp(l.tok[1], "cmd") == 0)
+  {
+    String commandLine(childPath, childPathLen);
+    commandLine.append(" @exit 0", 8);
+    pid = p.start(commandLine);
+  }
+  else
+    pid = p.start(String(childPath, childPathLen), 3, argv);
+  nvFailVfork = 0;
+  int err = errno;
+  printf("sf pid=%u st=%d%d%d%d | eagain=%d", (unsigned)pid, p.pid ? 1 : 0, p.fdStdOutRead ? 1 : 0, p.fdStdErrRead ? 1 : 0, p.fdStdInWrite ? 1 : 0,
+    err == EAGAIN ? 1 : 0);
+  hxEndLine();
+}
+
+// dmn <ok|nofile>: Process::daemonize(log file) in a forked copy A of the harness.  ok: A forks the daemon B and exits 0;
+// B reports (through a scratch file) what daemonize returned, where its descriptors 0..3 point and whether it leads a
+// session.  nofile: the log file cannot be created: daemonize returns false in A, nothing changed.
+static const char* fdState(int fd, const char* before, const char* logPath)
+{
+  char name[32], link[600];
+  snprintf(name, sizeof(name), "%d", fd);
+  if(!linkOf("/proc/self/fd", name, link, sizeof(link)))
+    return "closed";
+  if(strcmp(link, logPath) == 0)
+    return "log";
+  return strcmp(link, before) == 0 ? "same" : "other";
+}
+
+static void opDaemonize(const HxLine& l)
+{
+  bool good = strcmp(l.tok[1], "ok") == 0;
+  const char* dir = getenv("TMPDIR");
+  char logPath[600], report[600];
+  static unsigned counter = 0;
+  ++counter;
+  snprintf(logPath, sizeof(logPath), good ? "%s/nstd-args-dlog-%d-%u" : "%s/nstd-args-nodir-%d-%u/log", dir && *dir ? dir : "/tmp", (int)getpid(), counter);
+  snprintf(report, sizeof(report), "%s/nstd-args-drep-%d-%u", dir && *dir ? dir : "/tmp", (int)getpid(), counter);
+  unlink(report);
+  fflush(stdout);
+  pid_t a = fork();
+  if(a == 0)
+  {
+    char before[4][600];
+    for(int fd = 0; fd < 4; ++fd)
+    {
+      char name[32];
+      snprintf(name, sizeof(name), "%d", fd);
+      if(!linkOf("/proc/self/fd", name, before[fd], sizeof(before[fd])))
+        strcpy(before[fd], "-");
+    }
+    bool ret = Process::daemonize(String(logPath, strlen(logPath)));
+    // here: the daemon B (ret = true) or, when daemonize failed, still A
+    char text[400];
+    int n = snprintf(text, sizeof(text), "dmn ret=%d fd0=%s fd1=%s fd2=%s fd3=%s | sid=%d inparent=%d", ret ? 1 : 0, fdState(0, before[0], logPath),
+      fdState(1, before[1], logPath), fdState(2, before[2], logPath), fdState(3, before[3], logPath), getsid(0) == getpid() ? 1 : 0,
+      getpid() == a ? 9 : (ret ? 0 : 1));
+    char tmp[640];
+    snprintf(tmp, sizeof(tmp), "%s.tmp", report);
+    int fd = ::open(tmp, O_CREAT | O_WRONLY | O_TRUNC, 0600);
+    if(fd >= 0)
+    {
+      ssize_t k = write(fd, text, (size_t)n);
+      (void)k;
+      ::close(fd);
+      rename(tmp, report);
+    }
+    _exit(ret ? 0 : 7);
+  }
+  int status = 0;
+  bool waited = a > 0 && waitpid(a, &status, 0) == a;
+  char text[400] = "";
+  for(int i = 0; i < 10000; ++i)
+  {
+    int fd = ::open(report, O_RDONLY);
+    if(fd >= 0)
+    {
+      ssize_t n = ::read(fd, text, sizeof(text) - 1);
+      ::close(fd);
+      text[n > 0 ? n : 0] = 0;
+      break;
+    }
+    usleep(500);
+  }
+  unlink(report);
+  unlink(logPath);
+  printf("%s astatus=%d", *text ? text : "dmn noreport |", waited && WIFEXITED(status) ? WEXITSTATUS(status) : -1);
+  hxEndLine();
+}
+
 int main(int argc, char** argv)
 {
   if(argc > 1)
@@ -1626,6 +1880,14 @@ int main(int argc, char** argv)
       opEnv(l);
     else if(l.ntok >= 2 && strcmp(l.tok[0], "w") == 0)
       opWait(l);
+    else if(l.ntok >= 5 && strcmp(l.tok[0], "sel") == 0)
+      opSel(l);
+    else if(hxIs(l, "dmn", 1))
+      opDaemonize(l);
+    else if(hxIs(l, "joinfail", 3))
+      opJoinFail(l);
+    else if(hxIs(l, "startfail", 1))
+      opStartFail(l);
     else if(hxIs(l, "pexit", 1))
       opPExit(l);
     else if(hxIs(l, "ids", 0))
